@@ -1,12 +1,15 @@
 import EinoV.Oracle.GraphCase
+import EinoV.Oracle.C01Chain
 
 namespace EinoV.Oracle.C01
 open Lean EinoV
 
 /-- extra case families of this property, by the "kind" field of the case
     (extended in this file by the families' owners) -/
-def handleKind (kind : String) (_c : Json) : JE Json :=
-  throw s!"unknown case kind {kind}"
+def handleKind (kind : String) (c : Json) : JE Json :=
+  match kind with
+  | "chain" => C01Chain.handle c
+  | _ => throw s!"unknown case kind {kind}"
 
 /-- case: {"g": graph case, "input": "x"}  (no "kind"), or a case of an extra family -/
 def handle (c : Json) : JE Json := do
